@@ -148,6 +148,16 @@ func outRes(dir, p string, err error, archive bool) string {
 }
 
 // cidLines: the CIDs `car list` printed, as hex.
+// stdoutRes: a sub-command run without its optional output argument writes the result to standard
+// output — exactly the bytes it would have written to the file, and nothing else.
+func stdoutRes(dir, tmp string, so string, err error, archive bool) string {
+	if err != nil {
+		return "r=err"
+	}
+	os.WriteFile(tmp, []byte(so), 0o644)
+	return outRes(dir, tmp, nil, archive)
+}
+
 func cidLines(s string) string {
 	var cs []cid.Cid
 	for _, l := range strings.Split(strings.TrimSpace(s), "\n") {
@@ -248,6 +258,16 @@ func famC19(g *Gen, o *Out, n int, thorough bool) {
 		g.prepOut(out)
 		_, _, err := runCar(nil, dir, "index", "--version=1", in, out)
 		o.Line(fmt.Sprintf("cli op=index ver=1 codec=none %s", desc), outRes(dir, out, err, true))
+		// the same two requests with the output argument omitted: the archive goes to standard output
+		{
+			codec := []string{"mh", "sorted", "none"}[g.pick(3)]
+			cname := map[string]string{"mh": "car-multihash-index-sorted", "sorted": "car-index-sorted", "none": "none"}[codec]
+			so, _, err := runCar(nil, dir, "index", "--codec="+cname, in)
+			o.Line(fmt.Sprintf("cli op=index via=stdout ver=2 codec=%s %s", codec, desc), stdoutRes(dir, out, so, err, true))
+			so, _, err = runCar(nil, dir, "index", "--version=1", in)
+			o.Line(fmt.Sprintf("cli op=index via=stdout ver=1 codec=none %s", desc), stdoutRes(dir, out, so, err, true))
+			o.Count("index/stdout")
+		}
 		// --- index create
 		{
 			codec := []string{"mh", "sorted"}[g.pick(2)]
@@ -262,6 +282,11 @@ func famC19(g *Gen, o *Out, n int, thorough bool) {
 		_, _, err = runCar(nil, dir, "detach-index", in, out)
 		o.Line(fmt.Sprintf("cli op=detach codec=%s sid=1 %s", map[bool]string{true: a.codec, false: "none"}[a.hasIdx], desc), outRes(dir, out, err, false))
 		o.Count(fmt.Sprintf("detach/hasidx=%d", b2i(a.hasIdx)))
+		if g.pick(2) == 0 {
+			so, _, err := runCar(nil, dir, "detach-index", in)
+			o.Line(fmt.Sprintf("cli op=detach via=stdout codec=%s sid=1 %s", map[bool]string{true: a.codec, false: "none"}[a.hasIdx], desc), stdoutRes(dir, out, so, err, false))
+			o.Count("detach/stdout")
+		}
 		// --- list
 		{
 			so, _, err := runCar(nil, dir, "list", in)
@@ -283,6 +308,11 @@ func famC19(g *Gen, o *Out, n int, thorough bool) {
 				_, _, err := runCar(nil, dir, "get-block", in, k.String(), out)
 				o.Line(fmt.Sprintf("cli op=getblock c=%x %s", k.Bytes(), desc), outRes(dir, out, err, false))
 				o.Count("getblock/" + okOrErr(err))
+				if g.pick(3) == 0 {
+					so, _, err := runCar(nil, dir, "get-block", in, k.String())
+					o.Line(fmt.Sprintf("cli op=getblock via=stdout c=%x %s", k.Bytes(), desc), stdoutRes(dir, out, so, err, false))
+					o.Count("getblock/stdout")
+				}
 			}
 		}
 		// --- filter (and its inverse), both output versions
